@@ -213,7 +213,8 @@ impl Literal {
                             match (fields1, variant2) {
                                 (VariantLiteral::Unit, Variant::Unit(_)) => return true,
                                 (VariantLiteral::Tuple(fields1), Variant::Tuple(_, fields2)) => {
-                                    return fields1
+                                    return fields1.len() == fields2.len()
+                                        && fields1
                                         .iter()
                                         .zip(fields2.iter())
                                         .all(|(f, ty)| f.is_of_type(checked, ty));
